@@ -1,8 +1,9 @@
 #!/bin/bash
 # tools/run_all.sh [tier] [seed]: runs every registered check once; prints one line per property.
 cd "$(dirname "$(readlink -f "$0")")/.."
-tier="${1:-quick}"; seed="${2:-1}"
-for p in $(python3 -c "import json;print(' '.join(c['property_id'] for c in json.load(open('MANIFEST.json'))['checks']))"); do
+tier="${1:-quick}"; seed="${2:-1}"; shift 2 2>/dev/null
+props="$*"; [[ -z "$props" ]] && props=$(python3 -c "import json;print(' '.join(c['property_id'] for c in json.load(open('MANIFEST.json'))['checks']))")
+for p in $props; do
   t0=$(date +%s)
   out=$(VERIF_SEED=$seed ./check $p --tier $tier 2>&1); rc=$?
   echo "$p tier=$tier seed=$seed exit=$rc $(( $(date +%s)-t0 ))s $(echo "$out" | grep -c '^VIOLATION') violations $(echo "$out" | grep -c '^KNOWN-FINDING') known | $(echo "$out" | grep -m1 'INFRASTRUCTURE\|violation:' | cut -c1-160)"
